@@ -167,6 +167,7 @@ pub fn fence_family() -> Vec<String> {
         for prefix in ["\n", "  \n", "\r\n", "\n\t\n\n"] {
             v.push(format!("{prefix}{s}"));
         }
+        v.push(format!("\u{feff}{s}"));
         v.push(format!("\r\n{crlf}"));
         v.push(s.trim_end_matches('\n').to_string());
         v.push(crlf.trim_end_matches("\r\n").to_string());
@@ -187,6 +188,21 @@ pub fn run(ctx: &mut Ctx) {
                 ctx.count("inputs_fence_family");
             }
             k += 1;
+        }
+    }
+    // single tokens longer than 64 KiB (comment, word, blanks) with content after them
+    if ctx.shard == 0 {
+        let long = "A".repeat(70_000);
+        for doc in [
+            format!("Mix the @flour{{200%g}} first.\n\n[- {long} -]\n\nThen bake in the #oven with the @butter until golden.\n"),
+            format!("first -- {long}\nThen bake in the #oven until golden 7.\n"),
+            format!("{long} then bake it 7.\n\nAnd serve 8.\n"),
+            format!("a{}b and c 9\n\nend 1\n", " ".repeat(70_000)),
+        ] {
+            for e in [Extensions::empty().bits(), Extensions::all().bits()] {
+                check_case(ctx, &Case::new("long_token", doc.as_str(), e, "n/a"));
+                ctx.count("inputs_long_tokens");
+            }
         }
     }
     let p = G2 {
